@@ -14,6 +14,7 @@ events as documented at `itemEvents` / `insEvent`.
 -/
 import Gmsm.Model.Handshake
 import Gmsm.Model.HandshakeSends
+import Driver.KeyAgreement
 namespace Driver.HS
 open Model.Handshake
 
@@ -312,7 +313,7 @@ def hex4 (n : Nat) : String :=
 /-- the genuine hello of a gmtls client: GMSSL (`makeClientHelloGM`) or TLS (`makeClientHello`, default suites) -/
 def genuineHello (kind : String) : Nat × List Nat × List Nat :=
   if kind = "gm" then (0x0101, [0xe013, 0xe053, 0xe011, 0xe051], [0])
-  else (0x0303, [0xcca8, 0xcca9, 0xc02f, 0xc030, 0xc02b, 0xc02c, 0xc009, 0xc014, 0xc00a, 0x009c, 0x009d, 0x002f, 0x0035,
+  else (0x0303, [0xcca8, 0xcca9, 0xc02f, 0xc030, 0xc02b, 0xc02c, 0xc013, 0xc009, 0xc014, 0xc00a, 0x009c, 0x009d, 0x002f, 0x0035,
                  0xc012, 0x000a], [0])
 
 def chmodOp (args0 : List String) : String :=
@@ -401,6 +402,8 @@ def handshakeDispatch (toks : List String) : Option String :=
   -- one and with no other (intrinsic oracle in the harness: ORACLE-FAIL:completed-on-misbehaviour)
   | ["evilsrv", v, _, _] => some (if v = "honest" then "done" else "error")
   | ["evilgm", v, _, _] => some (if v = "honest" then "done" else "error")
+  -- key-exchange messages that do not fit the selected suite (harness/c15evil2.go; Model.KeyAgreement)
+  | "evilkx" :: rest => some (KX.evilkxOp rest)
   -- a scripted GM client holding its own secrets (VerifEvilClient): the server completes with the variants that
   -- deviate in nothing the server can see before its handshake is over, and with no other
   | ["evilgmc", v, o, _] =>
